@@ -32,7 +32,7 @@ TRUSTED_EXTRA = [
     "event (its linearisation point is searched inside the call's window); the write batch / staged timestamp write are "
     "trace positions only (their persistence is C07/C08)",
     "cancellation of input_session()/commit() futures (F12) is not modelled here (C05)",
-    "hooks: 23 add-only verif_point!/verif_pause! lines in sync.rs and input_session.rs (labels phase:*); events of reader "
+    "hooks: 21 add-only verif_point!/verif_pause! lines in sync.rs and input_session.rs (labels phase:*); events of reader "
     "release, query return, set_input return and commit return are emitted by the harness itself around the public API calls",
     "multi-thread traces: hook emission is not atomic with the step, so each event has a window (previous event of the same "
     "task, own emission] and the driver searches a linearisation; queue order is unobservable there (unfair lock model)",
